@@ -3,6 +3,7 @@ import pyModeS as pms
 from ref import frames, gillham
 from vlib import dual, variants
 from vlib import volume
+from vlib import variants
 from vlib.core import Leg, call
 
 PROPERTY = "C08"
@@ -11,7 +12,7 @@ RULE = ("all 8192 identity patterns (A,B,C,D octal digits x X bit, exhaustive) t
         "FS(8) x DR(32) x IIS(16) x IDS(4) product on DF4 and DF5 with random remaining bits (surv.fs/dr/um); CA(8) x all 80 (CL,IC) codes and "
         "overlay values >= 80 on DF11 (allcall.capability/interrogator/icao); every DF 0..31 for the RuntimeError guards. Oracle: the encoded "
         "values. non-trivial = identity other than 0000/7777 patterns plus those explicitly, field value != 0, DF outside the accepted set"
-        ' Also: call history on the same string (helpers first, every call twice), one constant context per carrier, the un-guarded py_common.fs/dr/um copies on short and long replies, more than 2^20 distinct frames in a row in one process (leg volume).')
+        ' Also: call history on the same string (helpers first, every call twice), one constant context per carrier, the un-guarded py_common.fs/dr/um copies on short and long replies, more than 2^20 distinct frames in a row in one process (leg volume), the first calls of a freshly imported package made by four threads at once (leg first_use).')
 ASSUMPTIONS = ["identity interleave C1 A1 C2 A2 C4 A4 X B1 D1 B2 D2 B4 D4 (Annex 10) in ref/gillham.squawk_encode",
                "SI code = 16*(CL-1)+IC for CL 1-4, 'corrupt IC' above 79; description strings are not asserted, only their type",
                "frames are length-consistent: DF<16 -> 14 hex digits, DF>=16 -> 28"]
@@ -230,7 +231,25 @@ def vol_step(a, b, k):
     return None
 
 
+# ---------------------------------------------------------------- first calls of a freshly imported package, four threads at once
+def first_jobs(rng):
+    jobs = []
+    for _ in range(40):
+        code = rng.getrandbits(13)
+        df = rng.choice([5, 21])
+        n = 56 if df == 5 else 112
+        body = (rng.getrandbits(14) << 13) | code
+        if n == 112:
+            body = (body << 56) | rng.getrandbits(56)
+        msg = frames.tohex(frames.raw(df, body, n, rng.getrandbits(24)), n, rng.choice("UL"))
+        jobs.append(("common.idcode", (msg,), ("ok", digits(code))))
+        if df == 5:
+            jobs.append(("surv.identity", (msg,), ("ok", digits(code))))
+    return jobs
+
+
 LEGS = [
+    variants.first_use_leg(first_jobs),
     volume.leg(vol_step, 1100000, 2400000, "1.1 million (thorough: 2.4 million per process) distinct DF5/21 frames through idcode() in one process"),
     Leg("squawk13", chk_squawk, enum=enum_squawk, exhaustive=True, doc="all 8192 identity patterns, Python and emulated Cython squawk()"),
     Leg("id_carriers", chk_idcar, enum=enum_idcar, exhaustive=True, doc="all 8192 patterns x DF5/DF21/TC28 x random contexts"),
